@@ -1,4 +1,4 @@
-import SignalGen.Generated
+import SignalGen.Gen.Kernels
 /-!
 # Regenerated tie, C05: `FloatAsFloat` per sample, as the Go source defines it now, is the model's `f2fK` (one conversion to the destination format: exact when widening, correctly rounded when narrowing, never clipped)
 -/
